@@ -2,9 +2,9 @@
 (* Workload for C05: signing, boundary keys x boundary digests and PRNG pairs. *)
 EXTENDS GenKeys
 O1 == 0 + (NSignFixed+NSignRand)
-Count == O1
+Count == O1 + NBulk
 ItemAt(g) ==
-   SignAt(g - 0)
+  IF g <= O1 THEN SignAt(g - 0) ELSE BulkAt(g - O1)
 VARIABLE n
 INSTANCE GenBase
 =============================================================================
